@@ -1,4 +1,5 @@
-(* C12 line protocol.  One job per line:
+(* C12 line protocol.  One job per line (J: reader selections given as tables; K: linked mode, the reader is the
+   C10/C11 model: every message carries two more fields off size, the file size follows the messages, times in eighths):
    J nmsgs (ord type src time-or-N p1 sys dec)... navail (id)... ntr (s-or-N e-or-N abs nsel (ord)...)... nnonnan (ord)... ncalls (call)...
    call = ntypes-or-N (type)... s e abs nsrc-or-N (id)... ign max-or-N p1 sys order bytes idx num keep nan align natypes-or-N (type)...
    Output (one line): per call, tab-separated fields H (outcome after the history so far), F (same call on a fresh
@@ -15,7 +16,8 @@ let next_list f = let n = next_int () in List.init n (fun _ -> f ())
 let next_optlist f = let t = next () in if t = "N" then None else Some (List.init (int_of_string t) (fun _ -> f ()))
 let next_n () = n_of_int (next_int ())
 let next_tr () = let s = next_optz () in let e = next_optz () in let ab = next_bool () in { tr_start = s; tr_end = e; tr_abs = ab }
-let ots t = match t with None -> "N" | Some z -> string_of_int (int_of_z z)
+let tscale = ref 1   (* the linked mode counts time in eighths of a second *)
+let ots t = match t with None -> "N" | Some z -> string_of_int (int_of_z z / !tscale)
 let rid r = match r with
   | RFile m -> string_of_int (int_of_n m.m_ord)
   | RDefault (ty, t) -> Printf.sprintf "d%d@%s" (int_of_n ty) (ots t)
@@ -34,15 +36,24 @@ let () =
     let line = input_line stdin in
     toks := words line;
     (match next () with
-     | "J" ->
+     | ("J" | "K") as mode ->
+        let linked = (mode = "K") in
+        tscale := (if linked then 8 else 1);
+        let geom = ref [] in
         let log = next_list (fun () ->
           let o = next_n () in let ty = next_n () in let src = next_n () in let tm = next_optz () in
           let p1 = next_bool () in let sy = next_bool () in let dec = next_bool () in
+          (if linked then begin
+             let off = z_of_int (next_int ()) in let size = z_of_int (next_int ()) in
+             geom := { m_off = off; m_size = size; m_type0 = z_of_int (int_of_n ty); m_src0 = z_of_int (int_of_n src); m_time0 = tm } :: !geom
+           end);
           { m_ord = o; m_type = ty; m_src = src; m_time = tm; m_p1_some = p1; m_sys_some = sy; m_decodes = dec }) in
+        let fsize = if linked then z_of_int (next_int ()) else Z0 in
         let avail = next_list next_n in
         let tab = next_list (fun () -> let tr = next_tr () in let sel = next_list next_n in (tr, sel)) in
         let nonnan = next_list next_n in
-        let env = concrete_env log avail tab nonnan in
+        let env = if linked then runner_env { f_msgs = List.rev !geom; f_size = fsize } avail
+                  else concrete_env log avail tab nonnan in
         let calls = next_list (fun () ->
           let types = next_optlist next_n in let tr = next_tr () in let src = next_optlist next_n in
           let ign = next_bool () in let mx = next_optz () in let p1 = next_bool () in let sy = next_bool () in
